@@ -296,6 +296,15 @@ def run_case(kind, params, ctx):
                 st, out = _recv(ctx, ScriptSock(exp + b"\xaa", [rng.choice([1, 7, 24, 4096])] * 3, tail="max"), "cmd")
                 if st != "ok" or out != (MAG, cmd, payload):
                     ctx.violation("frag/wrong-message/command-table", f"{cmd!r} {size} bytes: {st}")
+        # command fields outside the table: all 12 bytes used, a NUL in the middle (after the name of a KNOWN command), non-printable bytes -
+        # "received as exactly the same command": the field without its trailing NUL padding
+        for cmdf in (b"abcdefghijkl", b"ping\x00v2", b"version\x00x", b"a\x00b\x00c", b"\x01\x02\xff", b"x", b"inv\x00\x00\x01"):
+            payload = rand_bytes(rng, 9)
+            exp = rp.frame(MAG, cmdf, payload)
+            ctx.count("cmd.odd_fields")
+            st, out = _recv(ctx, ScriptSock(exp + b"\xaa", [rng.choice([1, 7, 24, 4096])] * 3, tail="max"), "cmd")
+            if st != "ok" or out != (MAG, cmdf, payload):
+                ctx.violation("frag/wrong-message/odd-command-field", f"command field {cmdf!r}: {st} {out[1] if st == 'ok' else out!r}")
         return
     if kind == "codec_version":
         _codec_version(ctx, rng)
